@@ -68,7 +68,7 @@ func WorkerMain(fn ScenarioFunc) {
 		n := 0
 		o.Stop = func() bool {
 			n++
-			return n%64 == 0 && time.Now().After(deadline)
+			return n%16 == 0 && time.Now().After(deadline)
 		}
 	}
 	func() {
